@@ -100,6 +100,9 @@ HISTORIES = {
                                          ('eltorito', '/OTHER.;1', dict(bootcatfile='/NEW.CAT;1', boot_load_size=1))]),
     'hidden-boot-file-with-table': (dict(), [('file', '/BOOT.;1', 100, BOOT_A[:100]), ('eltorito', '/BOOT.;1', dict(bootcatfile='/BOOT.CAT;1', boot_info_table=True)),
                                              ('rm_link', '/BOOT.;1'), ('file', '/A.;1', 3)]),
+    # more names for the boot catalog: by the dedicated argument and by naming the catalog's own path (K70), then more edits
+    'catalog-with-more-names': (dict(), [('file', '/BOOT.;1', 2048), ('eltorito', '/BOOT.;1', dict(bootcatfile='/BOOT.CAT;1')), ('dir', '/D'),
+                                         ('link_catalog', None, '/D/CAT2.;1'), ('link_catalog', '/BOOT.CAT;1', '/CAT3.;1'), ('file', '/0A.;1', 2049)]),
     'hidden-boot-file': (dict(), [('file', '/BOOT.;1', 100), ('eltorito', '/BOOT.;1', dict(bootcatfile='/BOOT.CAT;1')), ('rm_link', '/BOOT.;1'), ('file', '/A.;1', 3)]),
 }
 
@@ -218,6 +221,13 @@ def run_history(c, name):
         elif op[0] == 'rm_link':
             S.call(c, iso, 'rm_hard_link', iso_path=op[1])
             st['files'].pop(op[1])
+        elif op[0] == 'link_catalog':
+            # another name for the boot catalog: asked for as such (op[1] is None) or by one of the names it already has
+            k = dict(boot_catalog_old=True) if op[1] is None else dict(iso_old_path=op[1])
+            if 'rock_ridge' in kw:
+                k['rr_name'] = op[2].rsplit('/', 1)[1].split('.')[0].lower()
+            S.call(c, iso, 'add_hard_link', iso_new_path=op[2], **k)
+            st.setdefault('catalog_links', []).append(op[2])
         elif op[0] == 'reopen':
             # write what there is, open it again, go on with the opened object
             img = S.written(c, iso)
@@ -365,7 +375,10 @@ class BootImage(Base):
             else:
                 keep.append(t[2] == n and Eq(got, content))
         cl['every-file-reads-its-own-bytes'] = And(*keep) if keep else True
-        cl['exactly-the-named-files'] = sorted(p for p, t in tree.items() if t[0] == 'file' and (st['catalog'] is None or p != st['catalog'].encode())) == sorted(p.encode() for p in st['files'])
+        more = [p.encode() for p in st.get('catalog_links', [])] if st['catalog'] else []
+        cl['exactly-the-named-files'] = sorted(p for p, t in tree.items() if t[0] == 'file' and (st['catalog'] is None or p != st['catalog'].encode()) and p not in more) == sorted(p.encode() for p in st['files'])
+        if more:
+            cl['every-further-name-of-the-catalog-is-the-catalog'] = et is not None and all(p in tree and tree[p][0] == 'file' and tree[p][1][0][0] == et['catalog'] and tree[p][2] == tree[st['catalog'].encode()][2] for p in more)
         cl['image-length-is-the-declared-size'] = len(img) == res['pvd']['space_size'] * 2048
         return cl
 
